@@ -8,8 +8,8 @@ RULE = ("odometer enumeration (no randomness), every input in an exact-size heap
         "attributes x10/x11, depth 20/21, name length 256/257, max_depth option, self-closing, '>' inside text), each under 6 "
         "callback policies {skip, body, descend, descend-then-abort, descend-root-then-body, descend-root-then-skip}. JSON: 18 "
         "symbols, n<=4/5, 22 templates incl. array/object nesting 1000/1001, surrogates, raw UTF-8. CBOR decoder: every first "
-        "byte 0x00-0xFF x followers from 16 bytes, total length <=4/5, 17 templates (indefinite/definite nesting to 4096, "
-        "2^64-1 counts); per input every decoder operation as first call on a fresh decoder, then a typed peek+pop walk, a "
+        "byte 0x00-0xFF x followers from 16 bytes, total length <=4/5, 22 templates (indefinite/definite nesting and tag chains 8/64/1024, "
+        "4096 in the thorough tier; 2^64-1 counts); per input every decoder operation as first call on a fresh decoder, then a typed peek+pop walk, a "
         "consume_whole loop and a consume_single loop. URI + query iteration + percent-decoding: 13 symbols, n<=5/6, 8 "
         "templates. date-time: 17 symbols, n<=4/5, 30 templates (length 100/101 included), each input x 4 format selectors x "
         "{byte_buf, cursor} entry point. UUID/IPv4/IPv6(zone, uri-encoded): 11 symbols, n<=5/6, 10 templates. unsigned parse "
